@@ -37,16 +37,17 @@ func init() {
 }
 
 type c09Pool struct {
-	kind      string
-	enz       c10Enzyme
-	frags     []oracle.LigFragment
-	designed  map[string]string // canonical -> spelling; nil when only the enumeration knows
-	simple    oracle.LigateResult
-	junctions int
-	decoys    int
-	entering  int
-	flipped   int
-	relaxed   bool // termination pool: superset-of-simple + closed-walk rule
+	kind       string
+	enz        c10Enzyme
+	frags      []oracle.LigFragment
+	designed   map[string]string // canonical -> spelling; nil when only the enumeration knows
+	simple     oracle.LigateResult
+	junctions  int
+	decoys     int
+	entering   int
+	flipped    int
+	duplicates int
+	relaxed    bool // termination pool: superset-of-simple + closed-walk rule
 }
 
 // c09Overhangs draws n overhangs of length ov: distinct, non-palindromic, no two reverse complements of each other.
@@ -144,6 +145,18 @@ func c09Designed(r *rand.Rand) *c09Pool {
 		f.Seq = c09Interior(r, f.Fwd, f.Rev, g, used)
 		p.frags = append(p.frags, c09MaybeFlip(r, f, p))
 		p.decoys++
+	}
+	// the same fragment may be supplied more than once (a second carrier of the same insert, possibly on the
+	// other strand): the rings it takes part in are the same molecules and must still be reported once
+	if r.Intn(3) == 0 {
+		for d := 1 + r.Intn(2); d > 0; d-- {
+			f := p.frags[r.Intn(len(p.frags))]
+			if r.Intn(2) == 0 {
+				f = oracle.LigFragment{Fwd: oracle.MustRevComp(f.Rev), Seq: oracle.MustRevComp(f.Seq), Rev: oracle.MustRevComp(f.Fwd)}
+			}
+			p.frags = append(p.frags, f)
+			p.duplicates++
+		}
 	}
 	// rings by construction
 	p.designed = map[string]string{}
@@ -646,6 +659,7 @@ func runC09(w *mon.W) {
 		w.Add("rings_expected", int64(nExpected))
 		w.Add("fragments_supplied_flipped", int64(p.flipped))
 		w.Add("decoy_fragments", int64(p.decoys))
+		w.Add("fragments_supplied_twice", int64(p.duplicates))
 		if p.entering > 0 {
 			w.Add("pools_with_decoy_entering_ring", 1)
 		}
